@@ -17,7 +17,7 @@ META = {
 
 
 def check(ctx):
-    G.definition_predicate(ctx, "C02.1")
+    G.definition_predicate(ctx, "C02.1", require_skip_substituted=False)
     G.generated_path(ctx, "C02.1")
     with ctx.only(lambda k: k in ("type-ir/only-struct-enum", "enum-ir/name", "struct-ir/name", "type-ir/params-init", "type-ir/type-params")):
         G.enum_struct_ir(ctx, "C02.2")
